@@ -11,6 +11,18 @@ CLAIMED = {
          'args inside the unit set imply results inside it for every layer-2 function executed from MIR; raw results of the entry points are inside the unit set and independent of auxiliary variables; result & not unit is unsatisfiable on instances whose regulation constraints exclude colours.', TB, '4/C03'),
  'C04': ('E-MIR fork mode over batches with nondeterministic HashMap/HashSet/heap-tie iteration order + E-UNI BDD miters between batch / single / sharing-disabled / repeated / observed runs',
          'model_check_multiple_extended_formulae_dirty from MIR on batches of overlapping formulas: every position equals the semantics of its own formula under three global container-order policies (thorough: all permutations for pairs); natively: batch vs alone vs EvalContext without duplicates vs permuted list vs progress observer give identical BDDs.', TB + '; iteration orders: 3 policies (all permutations only for <=3 entries in the thorough tier)', '4/C04'),
+ 'C05': ('E-MIR fork mode: tokenizer + parser executed from MIR on strings of symbolic characters and on symbolic token sequences, in product with a reference grammar (z3 decides every branch and the final equalities)',
+         'For every string up to the length bound (each character a 32-bit solver variable over ASCII + non-ASCII representatives) and every token sequence up to the bound, the real tokenizer and parser (plain and extended) accept exactly when the documented grammar does, produce the unique tree of the grammar, use every token exactly once, and plain/extended agree; counterexamples are replayed on the native parser.',
+         'reference grammar reading of DESIGN.md 3.6; char classification exact on ASCII + representatives; std String/Vec/iterator models; strings <= 3 (4) characters, token sequences <= 3 (5)', '4/C05'),
+ 'C06': ('E-MIR fork mode: constructors, Display impls (format! interpreted through the repository code) and parser from MIR on all root operators x child templates and on symbolic identifiers',
+         'parse(print(t)) == t, stored text == canonical rendering, stored height == 1 + max child height, for trees assembled with the public constructors (every operator, atom kind, domain option; symbolic identifiers) and for every tree produced by the parser and by preprocessing on the explored paths.',
+         'identifiers are non-reserved names of <= 3 symbolic characters; trees of height <= 3 (4)', '4/C06'),
+ 'C07': ('E-MIR fork mode: validate_props_and_rename_vars from MIR on tree skeletons with symbolic variable names (solver decides every equality pattern) against a scope-checker + depth-naming oracle',
+         'accept/reject exactly as the binding rules say; accepted result equals the depth-named alpha-equivalent tree; number of names == nesting depth; idempotent; natively replayed.',
+         '23 skeletons, names of 1-2 symbolic characters', '4/C07'),
+ 'C09': ('E-MIR fork mode: canonize_subform / get_canonical_and_renaming / mark_duplicates_canonized_multiple from MIR with symbolic labels, all binding patterns and nondeterministic container orders, against an independent canoniser and an alpha-equivalence decision',
+         'same canonical form <=> equal up to renaming (all pairs of sub-formulas), renaming maps free variables injectively to their canonical names, idempotence, and every reported duplicate with counter m has >= m+1 occurrences with identical free-variable domains, under three iteration-order policies; replayed natively through a feature-gated re-export.',
+         '13 preprocessed formula shapes x all binding choices; lists of <= 2 trees', '4/C09'),
  'C10': ('E-MIR fork mode with wild-cards bound to solver terms produced by the real evaluation of the replaced sub-formula + E-UNI miters',
          'C[%p%] with %p% := raw result of psi equals C[psi] (1-2 simultaneous replacements) for all 2-variable transition systems; plain formulas through extended entry points with empty context equal the plain entry points; the same natively on universal instances.', TB + '; benchmark-size networks outside the claim', '4/C10'),
  'C11': ('E-MIR merge-mode bounded model checking of the real kernels from MIR (z3) + E-UNI BDD miters (z3)',
@@ -41,8 +53,8 @@ for pid in props:
                    'level_claimed': {'category': level, 'text': text, 'design_ref': 'DESIGN.md section ' + ref}, 'level_note': note, 'technique': tech})
 na = [{'property_id': p, 'reason': NA.get(p, 'check under construction in this build round (engine exists, obligations not yet registered)')} for p in props if p not in CLAIMED]
 m = {'version': 1, 'setup_cmd': './setup.sh',
-     'hooks': {'guard': 'hctl_verif', 'enable': 'no source hooks are used: the MIR dump exposes private functions, everything else goes through the public API (hv-native has a path dependency on /repo)',
-               'baseline_off_cmd': 'cd /repo && cargo test --workspace --no-fail-fast --offline', 'source_commits': [], 'add_only': True},
+     'hooks': {'guard': 'hctl_verif', 'enable': 'cargo feature hctl_verif (off by default): hv-native depends on /repo with features = ["hctl_verif"]; the only hook is a re-export of the private canonization functions (src/evaluation/mod.rs) used for native replay in C09; every other check uses the public API, and the MIR dump needs no hook',
+               'baseline_off_cmd': 'cd /repo && cargo test --workspace --no-fail-fast --offline', 'source_commits': ['d415a4a'], 'add_only': True},
      'engines': [{'name': 'hv', 'path': '/verif/hv', 'serves_properties': sorted(CLAIMED), 'kind_free_text': 'MIR -> z3 symbolic executor (merge mode for kernels, fork mode for text/tree/orchestration code) + universal-instance equivalence (real pipeline, BDD exported to z3) + native replay'}],
      'checks': checks, 'not_applicable': na,
      'notes': 'exit 0 = held on everything explored; exit 1 + VIOLATION line = violation reproduced natively; exit 2 = inconclusive (unsupported construct, solver unknown, non-reproducing counterexample)'}
